@@ -138,7 +138,9 @@ func parseJavadocTags(commentContent string) *model.Javadoc {
 	javaDoc := &model.Javadoc{}
 	var javadocTags []*model.JavadocTag
 
-	commentLines := strings.Split(commentContent, "\n")
+	// the comment delimiters are not part of any line's text
+	commentBody := strings.TrimSuffix(strings.TrimPrefix(commentContent, "/*"), "*/")
+	commentLines := strings.Split(commentBody, "\n")
 	for _, line := range commentLines {
 		line = strings.TrimSpace(line)
 		// line may start with /** or *
